@@ -11,6 +11,29 @@ def chk(pid, level, text, note, technique, engine, design):
 
 exec(open(os.path.join(HERE, "manifest_table.py")).read())
 
+# Companion replays: what the exact-real, bounded solver queries cannot distinguish is replayed on the real code and
+# reported as concrete obligations in the evidence (never as solver verdicts).
+COMPANION = {
+    "C01": "Companion replays (concrete, labelled as such in the evidence): seeded points in value regimes (states ~1e-9, ~1e6) judged against the magnitude bound of the specification; sat witnesses are also searched in a 2^20 box.",
+    "C02": "Companion: sat witnesses are also searched in a 2^20 box and judged against the specification's magnitude bound (tiny coefficients); exact-fraction noise values and non-round literals are corpus members.",
+    "C03": "Companion replays (concrete): Jacobians at seeded points with states/controls ~1e-9, a 2^-9 step, and states ~1e6, judged against operand magnitude.",
+    "C04": "Companion replays (concrete): seeded points in value regimes (covariance and noise scaled by 2^-46, states ~1e-9 / ~1e6) judged against operand magnitude; whole-number points under other array representations (int64, read-only, strided).",
+    "C05": "Companion replays (concrete): seeded points in value regimes (covariance and noise scaled by 2^-46, tiny / huge states; cond(S) <= 1e6) judged against operand magnitude.",
+    "C06": "Companion clause: the configured threshold is read back exactly from the generated C++ for non-round, numpy-scalar and integer values, object and dict config forms.",
+    "C07": "Companion replays (concrete): python vs generated C++ at value-regime points (tiny-noise twin of the program); configured numbers read back exactly from the generated C++.",
+    "C09": "Concrete histories are the replay target (200-600 steps, several programs incl. zero variance by cancellation); any exception raised by the code under test on a valid history counts as a refusal.",
+    "C10": "Companion replays (concrete): moves of hundreds to thousands of maximum steps from clock values 1e5..1e6 in doubles (outside the K bound), tolerance in spacings of the representable times; configured step read back exactly from the generated C++.",
+    "C11": "Companion replays (concrete): output-only ticks spanning thousands of steps must not change later call sequences; configured step read back exactly from the generated C++.",
+    "C12": "Companion: compile-only task for switching-function models; configured numbers (numpy scalars, ints, non-round) read back exactly; readings overload with an empty vector.",
+    "C16": "Companion replays (concrete): configured maximum step below the adapter's 0.1, a micro-gain sensor (S ~ 1e-12), data scales 2^-20 .. 2^10.",
+    "C17": "Companion (concrete): fit with the real scipy optimiser from tiny (1e-10) / large initial noise: MinimizationFailure or same model with finite positive noise.",
+    "C18": "Grid candidates are also supplied as tuples / numpy arrays (forms scikit-learn accepts).",
+    "C19": "Companion replays (concrete, before the symbolic run): compiled model vs reference at points with dt above/below the configured maximum, an almost-identity calibration, 5e-9 biases, large positions, judged against operand magnitude.",
+}
+for _pid, _txt in COMPANION.items():
+    if _pid in CHECKS:
+        CHECKS[_pid]["note"] = CHECKS[_pid]["note"].rstrip() + " " + _txt
+
 props = [json.loads(l)["id"] for l in open(os.path.join(HERE, "properties.jsonl"))]
 checks = []
 for pid in props:
